@@ -372,6 +372,9 @@ func (ex *Executor) psGet(st *State, cur Val, t types.Type, segs []string) (Val,
 			cur = x.Fields[i]
 			t = t.Underlying().(*types.Struct).Field(i).Type()
 		default:
+			// walking into something that is neither a map nor a struct (a string, a number, ...): the library reports an
+			// error of its own, not ErrNotFound
+			ex.psOther = true
 			return nil, nil, false
 		}
 	}
@@ -754,9 +757,17 @@ func registerReflect(ex *Executor) {
 		if ptr == "?" {
 			ex.abort("pointerstructure.Get with symbolic pointer")
 		}
+		if ptr != "" && !strings.HasPrefix(ptr, "/") {
+			// pointerstructure.Parse: a non-empty pointer must start with "/" (a parse error, not ErrNotFound)
+			return TupleV{IfaceV{}, ex.mkErr(st, "pointerstructure: parse error")}, cNext
+		}
 		iv, _ := args[0].(IfaceV)
+		ex.psOther = false
 		v, t, ok := ex.psGet(st, iv, iv.T, splitPointer(ptr))
 		if !ok {
+			if ex.psOther {
+				return TupleV{IfaceV{}, ex.mkErr(st, "pointerstructure: invalid value kind")}, cNext
+			}
 			return TupleV{IfaceV{}, psErr(st)}, cNext
 		}
 		if _, isI := v.(IfaceV); isI {
